@@ -50,6 +50,9 @@ checks = {
  "C11": ("model_checking", "every presentation (orders of state sets, of events within sets, of the auth list, duplicated auth entries, deprecated flat entry point) of generated fork scenarios; deviation-bounded DFS over the library's own map-iteration and set Slice() orders made explicit by source instrumentation (bound 1 quick / 2 thorough); every labelled DAG on <=4 (5) events through the three topological orderings in every presentation order",
          "Hidden nondeterminism (Go map order) is turned into enumerable choice points at check time from the current sources; every order within the deviation bound is executed on the real code and the resolved ID set must not change; well-formedness and topological validity are checked on every result.",
          "orders for maps larger than 4 limited to identity/reverse/rotations/adjacent swaps; each offered order is a legal Go iteration order", "4/C11"),
+ "C14": ("fault_enumeration", "exhaustive single and pairwise per-event faults x event-provider behaviours on generated state / send_join responses (hash-derived IDs, reference signatures) through CheckStateResponse / CheckSendJoinResponse; missing or disallowed events at every depth through VerifyEventAuthChain / VerifyAuthRulesAtState; every batch of <=3 inputs through LoadAndVerify / RequestBackfill; oracle recomputed per event from VerifyEventSignatures and Allowed",
+         "Every fault assignment within the bound is executed on the real verification functions; which events may leave is recomputed independently per event from the two sub-checks, so the plumbing (filtering, whole-response failure, classification, one result per input) is decided exactly.",
+         "VerifyEventSignatures / Allowed used as sub-oracles (C06/C07 decide them); static key ring", "4/C14"),
 }
 pending = {}
 props = [json.loads(l) for l in open('/verif/properties.jsonl')]
